@@ -66,28 +66,45 @@ def run_engine(cmd, result_path, what, timeout=7200, extra_env=None):
         os.remove(result_path)
         return r
     if rc < 0 or rc in (134, 139, 132, 136, 138):
+        # the process died on a signal: run again with side files (every worker notes the case it is
+        # about to execute) and replay the candidates in fresh processes
+        import glob
         side = result_path + ".side"
-        if os.path.exists(side):
-            os.remove(side)
+        for f in glob.glob(side + "*"):
+            os.remove(f)
         e = dict(extra_env or {})
-        e.update({"VERIF_THREADS": "1", "VERIF_SIDEFILE": side})
+        e.update({"VERIF_SIDEFILE": side})
         rc2, log2 = run(cmd, timeout=timeout, extra_env=e)
-        if rc2 != 0 and os.path.exists(side):
-            try:
-                case = json.load(open(side))
-            except Exception:
-                case = None
-            if case is not None:
-                os.remove(side)
-                return {
-                    "evaluations": 1, "distinct_nontrivial": 0, "nontrivial": 0, "rule": "crash localisation run",
-                    "samples": [case], "classes": {}, "counters": {},
-                    "failures": [{"signature": "crash", "case": case,
-                                  "message": "the process died (exit status %s) while executing this case: %s" % (rc2, (log2 or log)[-600:])}],
-                }
+        candidates = sorted(glob.glob(side + "*"))
+        found = None
+        if rc2 != 0:
+            for c in candidates:
+                try:
+                    case = json.load(open(c))
+                except Exception:
+                    continue
+                rc3, log3 = run([cmd[0], "replay", cmd[2], c], timeout=600, extra_env=extra_env)
+                if rc3 < 0 or rc3 in (1, 134, 139, 132, 136, 138):
+                    found = (case, rc3, log3)
+                    break
+            if found is None and len(candidates) == 1:
+                try:
+                    found = (json.load(open(candidates[0])), rc2, log2)
+                except Exception:
+                    pass
+        for f in glob.glob(side + "*"):
+            os.remove(f)
         if rc2 == 0 and os.path.exists(result_path):
-            # did not reproduce single-threaded
             os.remove(result_path)
+        if found is not None:
+            case, rc3, log3 = found
+            return {
+                "evaluations": 1, "distinct_nontrivial": 0, "nontrivial": 0, "rule": "crash localisation run",
+                "samples": [case], "classes": {}, "counters": {},
+                "failures": [{"signature": "crash", "case": case,
+                              "message": "the process died (exit status %s) executing generated cases; this case reproduces it in a fresh process (exit status %s): %s"
+                                         % (rc, rc3, (log3 or log2 or log)[-600:])}],
+            }
         raise Inconclusive("%s died (rc %s) and the crash could not be attributed to a case:\n%s" % (what, rc, log[-2000:]))
     raise Inconclusive("%s failed (rc %s):\n%s" % (what, rc, log[-3000:]))
 
@@ -206,6 +223,22 @@ def e3_parts(prop_arg, configs, cases):
     return [e3_part(prop_arg, c, cases) for c in configs]
 
 
+def e5_part(prop_arg, n):
+    def f(tier):
+        exe = cargo_build("e5_probes")
+        os.makedirs(WORK, exist_ok=True)
+        out = os.path.join(WORK, "e5_%s_%s.json" % (prop_arg, os.getpid()))
+        rc, log = run([exe, "run", prop_arg, str(n[tier]), out], timeout=7200, extra_env={"VERIF_ENGINE_DIR": ENGINE})
+        if rc != 0:
+            raise Inconclusive("e5_probes run %s failed (rc %s):\n%s" % (prop_arg, rc, log[-3000:]))
+        r = json.load(open(out))
+        os.remove(out)
+        r["part"] = "e5:" + prop_arg
+        r["replay_engine"] = "e5"
+        return r
+    return f
+
+
 PROPERTIES = {
     "C01": dict(level="exploration", parts=[e1_part("C01", dict(quick=100000, thorough=2000000))]),
     "C02": dict(level="exploration", parts=[e1_part("C02", dict(quick=100000, thorough=2000000))] + e3_parts("C02", "B", dict(quick=20000, thorough=200000))),
@@ -220,7 +253,10 @@ PROPERTIES = {
     "C09": dict(level="fault_enumeration", parts=e4_parts("C09", dict(quick=60000, thorough=1500000), dict(quick=8, thorough=11))),
     "C10": dict(level="exploration", parts=e4_parts("C10", dict(quick=40000, thorough=600000), dict(quick=12, thorough=40))),
     "C12": dict(level="exploration", parts=[e1_part("C12", dict(quick=100000, thorough=2000000))]),
-    "C13": dict(level="exploration", parts=[e1_part("C13", dict(quick=30000, thorough=500000))]),
+    "C11": dict(level="exploration", parts=[e5_part("C11", dict(quick=400, thorough=6000))]),
+    "C13": dict(level="exploration", parts=[e1_part("C13", dict(quick=30000, thorough=500000)), e5_part("C13", dict(quick=120, thorough=1500))]),
+    "C14": dict(level="exploration", parts=[e5_part("C14", dict(quick=150, thorough=1500))]),
+    "C17": dict(level="exploration", parts=[e5_part("C17", dict(quick=1500, thorough=20000))]),
     "C18": dict(level="exploration", parts=[e1_part("C18", dict(quick=40000, thorough=600000))]),
     "C19": dict(level="exploration", parts=[
         e1_part("C19", dict(quick=6000, thorough=100000)),
@@ -247,6 +283,8 @@ def setup():
         cargo_build("e4_vecconv", release=True)
         for c in "ABC":
             e3_build("quick", c)
+        cargo_build("e5_probes")
+        cargo_build("probe_deps", target_dir="target_p")
     except Inconclusive as e:
         print("setup failed:", e)
         return 2
@@ -267,6 +305,13 @@ def replay(prop, path):
         if engine in ("e4", "e4-release"):
             exe = cargo_build("e4_vecconv", release=(engine == "e4-release"))
             rc, out = run([exe, "replay", data.get("replay_property", prop), path], timeout=600)
+            print(out, end="")
+            if rc == 1:
+                print("VIOLATION property=%s replay=%s" % (prop, path))
+            return rc
+        if engine == "e5":
+            exe = cargo_build("e5_probes")
+            rc, out = run([exe, "replay", data.get("replay_property", prop), path], timeout=1200, extra_env={"VERIF_ENGINE_DIR": ENGINE})
             print(out, end="")
             if rc == 1:
                 print("VIOLATION property=%s replay=%s" % (prop, path))
@@ -302,11 +347,14 @@ def run_check(prop, tier):
     spec = PROPERTIES[prop]
     known = load_known()
     results = []
-    try:
-        for part in spec["parts"]:
+    part_errors = []
+    for part in spec["parts"]:
+        try:
             results.append(part(tier))
-    except Inconclusive as e:
-        print("INCONCLUSIVE property=%s: %s" % (prop, e))
+        except Inconclusive as e:
+            part_errors.append(str(e))
+    if not results:
+        print("INCONCLUSIVE property=%s: %s" % (prop, part_errors[0] if part_errors else "no part ran"))
         return 2
 
     os.makedirs(REPLAYS, exist_ok=True)
@@ -378,6 +426,9 @@ def run_check(prop, tier):
         print("VIOLATION property=%s replay=%s" % (prop, path))
     if violations:
         return 1
+    if part_errors:
+        print("INCONCLUSIVE property=%s: %s" % (prop, part_errors[0]))
+        return 2
     if inconclusive:
         print("INCONCLUSIVE property=%s: %s" % (prop, inconclusive[0].get("message")))
         return 2
